@@ -27,6 +27,8 @@ NAMINGS = {
     'plain': lambda k, i: '%s%d' % (k, i),
     'words': lambda k, i: {'T': 'task', 'W': 'machine', 'C': 'pool', 'S': 'choice', 'K': 'rule', 'B': 'stock', 'I': 'kpi', 'O': 'goal'}[k] + 'Q%dz' % i,
     'underscored': lambda k, i: '%s_%d_' % ({'T': 'job', 'W': 'res', 'C': 'cum', 'S': 'sel', 'K': 'con', 'B': 'buf', 'I': 'ind', 'O': 'obj'}[k], i),
+    # distinct names that share a prefix across kinds (worker M10 next to cumulative worker M1, task M1x next to both)
+    'shared_prefix': lambda k, i: {'W': 'M%d0', 'C': 'M%d', 'T': 'M%dx'}.get(k, k + '%d') % i,
 }
 # adversarial: names that are prefixes of each other / contain the infixes the library builds variable names with
 ADVERSARIAL = {
@@ -76,6 +78,11 @@ def small_program(r):
             continue
         seen.add((t, w))
         ops.append(('OAddRequired', N(t), ('ArgW', ('WPlain', N(w))), False, Z(0), Z(0)))
+    if r.random() < 0.35:
+        # a cumulative worker next to the plain ones (the report files its units under its name)
+        ops.append(('ONewCumulative', N(1), Z(2), Z(1), ('CostConst', Z(0))))
+        for t in r.sample(range(1, nt + 1), r.choice([1, 2])):
+            ops.append(('OAddRequired', N(t), ('ArgC', N(1)), False, Z(0), Z(0)))
     c = 1
     for _ in range(r.randint(0, 3)):
         k = r.choice(['CPrecedence', 'CStartAfter', 'CEndBefore', 'CDontOverlap', 'CNonDelay', 'CForceSched'])
@@ -255,7 +262,7 @@ def observe_case(args):
                 d.append((what + ':rejected', base.get('run'), (v.get('run'), v.get('init_error')), cfg))
             return d
         # (ii) other names
-        for nm in ('words', 'underscored'):
+        for nm in ('words', 'underscored', 'shared_prefix'):
             v = observe_variant(prog, NAMINGS[nm])
             out['diffs'] += semantic(v, 'renaming')
             if 'assertions' in v and v['assertions'] != base['assertions']:
